@@ -32,6 +32,7 @@ func Register(id string, run func(r *mon.Run)) {
 		yield := strings.Contains(r.Config, "yield")
 		if !yield || id == "C20" {
 			run(r)
+			runBufferReuse(r, id, r.N(80, 4000)) // reuse.go; nothing for properties without decoders
 		}
 		// the concurrent phase of the property (hammer.go), in every build configuration
 		if b := hammerBuilders[id]; b != nil {
